@@ -50,6 +50,11 @@ META = {
                 text="Seeded exploration of programs with discarded, failed and refused transactions and misuse calls, followed by "
                      "rotations, flushes, compactions and restarts.",
                 note=WHOLE),
+    "C12": dict(engine="engine", design_ref="7 C12, 3.7",
+                technique="deterministic simulation built with -race: race detector on serialised seeded schedules with an invisible hand-off; panic capture; C05-C07 oracles",
+                text="The detector flags only what a schedule executes; here schedules are searched and every report comes with a seed that "
+                     "reproduces it. Exploration over schedules and configurations (every flush-queue length including zero).",
+                note=WHOLE + "; relies on runtime.RaceDisable/RaceReleaseMerge semantics of go1.26.8; TSan reports a given stack pair once per process"),
     "C15": dict(engine="engine", design_ref="7 C15",
                 technique="deterministic simulation; exact deadlock detection by the scheduler, bounded-step liveness with fair tail",
                 text="The scheduler knows the state of every goroutine: an empty runnable set with an outstanding call is a deadlock, not a "
